@@ -323,6 +323,11 @@ func monitorSeq(c hxlib.Case, outs []string, useRaw bool) (vs []hxlib.Violation)
 				// which records: a record returned for the query satisfies it
 				if oq != nil && ce.typ == "ok" && ce.op == string(cls.Op) {
 					returned[ce.key] = true
+					// … and is a record of the queried database under the queried key prefix (fstree's missing prefix
+					// filter is C02's finding; its cases are built so that it stays invisible, the fuzz stream's are not)
+					if dn, dk := dbOfKey(ce.key); (dn != oq.db || !strings.HasPrefix(dk, oq.prefix)) && oq.db != "fsfz" && oq.db != "fstr" {
+						add(i, "C13:query-result-outside-scope:"+kind, fmt.Sprintf("record %q was returned for the query %q: not a key of that database under that prefix", ce.key, cls.Arg))
+					}
 					if m, ok := ownObject(ce.body); ok && !ce.opaque && !oq.cond.eval(m) {
 						add(i, "C13:query-result-not-matching:"+kind, fmt.Sprintf("record %q with content %q was returned for the query %q, whose where clause it does not satisfy", ce.key, ce.body, cls.Arg))
 					}
@@ -335,15 +340,20 @@ func monitorSeq(c hxlib.Case, outs []string, useRaw bool) (vs []hxlib.Violation)
 							for _, q := range qs {
 								if q == nil {
 									judged = false
-								} else if q.cond.eval(m) {
-									sat = true
+								} else if dn, dk := dbOfKey(ce.key); q.cond.eval(m) && dn == q.db && strings.HasPrefix(dk, q.prefix) {
+									sat = true // satisfies the clause and lies in the database and under the key prefix of the subscription
 								}
 							}
 							if judged && !sat {
-								add(i, "C13:notification-not-matching:"+kind, fmt.Sprintf("record %q with content %q was announced under operation ID %q, but satisfies the where clause of none of the subscriptions opened under it (%q …)", ce.key, ce.body, ce.op, "query "+qs[0].db+":"+qs[0].prefix+" where "+qs[0].cond.print(true)))
+								add(i, "C13:notification-not-matching:"+kind, fmt.Sprintf("record %q with content %q was announced under operation ID %q, but is a record of none of the subscriptions opened under it (database, key prefix, where clause: %q …)", ce.key, ce.body, ce.op, qs[0].text()))
 							}
 						}
 					}
+				}
+				// get: "one ok-with-record" — the record asked for (a get under an operation ID that live subscriptions
+				// or queries do not share: everything runs to quiescence, an ok in this batch under this ID is the get's)
+				if f[0] == "m" && cls.Kind == "get" && ce.typ == "ok" && ce.op == string(cls.Op) && ce.key != normKey(cls.Arg) {
+					add(i, "C13:get-other-record:m:get", fmt.Sprintf("get %q was answered with the record %q", cls.Arg, ce.key))
 				}
 				// read-back
 				if ce.typ == "ok" || ce.typ == "chg" || ce.typ == "new!" || ce.typ == "upd!" {
@@ -398,7 +408,7 @@ func monitorSeq(c hxlib.Case, outs []string, useRaw bool) (vs []hxlib.Violation)
 			case "query", "qsub":
 				// every record known to be there (written through the API as a JSON object, acknowledged, not touched
 				// since) that satisfies the query is among its results
-				if oq != nil && !oq.paging && ownDone && !ownErr && kindOfDb[oq.db] != "" && kindOfDb[oq.db] != "s" {
+				if oq != nil && !oq.paging && ownDone && !ownErr && kindOfDb[oq.db] != "" && kindOfDb[oq.db] != "s" && oq.db != "fsfz" {
 					for key, w := range store {
 						if !w.readable || w.opaque || len(w.payloads) == 0 || returned[key] {
 							continue
